@@ -26,7 +26,7 @@ MANIFEST_TEXT = ("Lean 4 theorems in three layers. (1) Over an arbitrary linearl
                  "specialisation derives from) and the vector comparisons eq_t_std_vec / eq_t_fvec (size test, loop, component call, derivation table; vec_eq_tied) are regenerated from float_cmp.cc as well; theorems: the model's round/trunc/roundM/truncM are Dispatch.run of the regenerated tables "
                  "(round_dispatch_tied ...), the regenerated vector overloads are the component-wise maps of the scalar functions for every length and scalar type (vec_round_trunc_eq_map), hence every "
                  "component of a vector result obeys the distance/direction laws (vec_round_within, vec_trunc_within) and the machine-integer versions agree with the mathematical ones when no component "
-                 "wraps (vec_roundM_truncM_eq). The vector overloads are instantiated by the harness (float/double/long double x int, unsigned char, short, unsigned long; std::vector sizes 0..7, "
+                 "wraps (vec_roundM_truncM_eq); in the rounding arithmetic of every format they return a vector of integer-valued numbers unchanged (fp_vec_round_trunc_int). The vector overloads are instantiated by the harness (float/double/long double x int, unsigned char, short, unsigned long; std::vector sizes 0..7, "
                  "FieldVector sizes 1,2,3,5; every overload and FloatCmpOps<vector type>) and compared bit for bit with the regenerated loops around roundM / truncM.")
 MANIFEST_NOTE = ("Trusted: Lean kernel (+propext/Classical.choice/Quot.sound), tr_c17.py, the hand-written round/trunc/integer models and the IEEE rounding model FP "
                  "(fidelity by differential execution against the hardware types and the harness minifloat), GMP as oracle, g++/ASan/UBSan, IEEE-754 conformance of "
